@@ -77,6 +77,29 @@ def expand_case(case):
     return {"ok": True, "nt": nt, "ops": k, "out": "max%d" % m}
 
 
+def expand_kinds_case(case):
+    """{'dtype': numpy dtype name | 'py' | 'tuple', 'ns': [...], 'max': m}: sample counts handed over as numpy arrays of narrow integer types, tuples and large Python ints -
+    the copies still have counts in [1, max] that sum to the request (in exact integer arithmetic), in order"""
+    from orquestra.quantum.circuits import expand_sample_sizes
+    ns, m, dt = [int(x) for x in case["ns"]], int(case["max"]), case["dtype"]
+    arg = list(ns) if dt == "py" else tuple(ns) if dt == "tuple" else np.array(ns, dtype=dt)
+    marg = m if dt in ("py", "tuple") or not case.get("max_typed") else np.dtype(dt).type(m)
+    circs = ["c%d" % i for i in range(len(ns))]
+    new_c, new_n, mult = expand_sample_sizes(circs, arg, marg)
+    new_c, new_n, mult = list(new_c), [int(x) for x in new_n], [int(x) for x in mult]
+    if len(mult) != len(ns) or len(new_c) != len(new_n) or sum(mult) != len(new_c):
+        return {"ok": False, "msg": "expand_sample_sizes(%s as %s, max=%d): lengths of the returned sequences are inconsistent" % (ns, dt, m), "observed": str((new_c[:8], new_n[:8], mult)), "sig": "expand:kinds"}
+    pos = 0
+    for i, n in enumerate(ns):
+        chunk_c, chunk_n = new_c[pos:pos + mult[i]], new_n[pos:pos + mult[i]]
+        pos += mult[i]
+        if chunk_c != [circs[i]] * mult[i] or any(not 1 <= x <= m for x in chunk_n) or sum(chunk_n) != n:
+            return {"ok": False, "msg": "expand_sample_sizes(%s as %s, max=%d): copies of circuit %d are %s (sum %d, requested %d)" % (ns, dt, m, i, chunk_n[:8], sum(chunk_n), n), "sig": "expand:kinds"}
+    if [int(x) for x in (arg if dt != "py" else ns)] != ns:
+        return {"ok": False, "msg": "expand_sample_sizes modified the sample counts it was given", "sig": "expand:kinds-mutated"}
+    return {"ok": True, "nt": any(n > m for n in ns), "ops": 1, "out": dt}
+
+
 def batch_case(case):
     """{'len': L, 'size': b}: every sample list over {1,5,9} of length L; chunks concatenate to input, sizes, sample numbers"""
     from orquestra.quantum.circuits import split_into_batches
@@ -229,7 +252,7 @@ def seam_validation_case(case):
     return {"ok": True, "nt": True, "ops": 5, "out": "real"}
 
 
-FUNCS = {"expand_combine": expand_case, "batches": batch_case, "pipeline": pipeline_case, "scale": scale_case, "represent": represent_case, "represent_wide": represent_case, "represent_multidigit": represent_case,
+FUNCS = {"expand_kinds": expand_kinds_case, "expand_combine": expand_case, "batches": batch_case, "pipeline": pipeline_case, "scale": scale_case, "represent": represent_case, "represent_wide": represent_case, "represent_multidigit": represent_case,
          "represent_real_rng": seam_validation_case}
 
 
@@ -267,6 +290,14 @@ def run(run):
     M = 36 if deep else 24
     secs = [Section("expand_combine", [{"max": m, "first": n0, "M": M} for m in range(1, M + 2) for n0 in range(1, M + 1)], expand_case,
                     desc="expand_sample_sizes + combine_measurement_counts/combine_bitstrings (called twice, shared per-copy dicts) on every count list")]
+    kinds = []
+    for dt, top in (("uint8", 255), ("int8", 127), ("uint16", 65535), ("int16", 32767), ("int32", 2 ** 31 - 1), ("uint32", 2 ** 32 - 1), ("int64", 2 ** 63 - 1), ("py", 10 ** 15), ("tuple", 10 ** 6)):
+        # counts and maxima placed so that count + max exceeds the type's range, just fits, and is far inside it; at most ~40 copies per circuit
+        for n_, m_ in ((top, top // 8 + 1), (top - 1, top // 2), (top // 2 + 3, top // 3), (top, top), (top - 3, top - 5), (7, 3), (min(top, 200), 9)):
+            kinds.append({"dtype": dt, "ns": [n_, 5, max(1, n_ // 2)], "max": m_})
+            if dt not in ("py", "tuple"):
+                kinds.append({"dtype": dt, "ns": [n_], "max": m_, "max_typed": True})
+    secs.append(Section("expand_kinds", kinds, expand_kinds_case, desc="expand_sample_sizes with counts as numpy arrays of 8/16/32/64-bit integer types (count + max beyond the type's range), tuples and large Python ints"))
     secs.append(Section("batches", [{"len": L, "size": b} for L in range(0, 8) for b in range(1, 9)], batch_case, desc="split_into_batches"))
     P = [{"ns": list(ns), "max": m, "batch": b} for k in (1, 2, 3) for ns in itertools.product((1, 4, 7, 10), repeat=k) for m in (1, 3, 4, 10) for b in (1, 2, 5)]
     secs.append(Section("pipeline", P, pipeline_case, desc="expand -> split_into_batches -> reference runner -> combine"))
